@@ -135,6 +135,13 @@ class Built:
                 if len(o.value) >= 2:
                     x = o.value.pop(0)
                     o.value.insert(0, x)
+                if len(o.value) >= 1:
+                    # a slice assignment that is refused (an item of a class the list does not take) leaves the list as it was
+                    wrong = model.Capability(None) if o.type_value_list_element is not model.Capability else model.ReferenceElement(None)
+                    try:
+                        o.value[0:1] = [wrong]
+                    except Exception:
+                        pass
                 continue
             for attr in ("submodel_element", "value", "statement", "annotation", "input_variable", "output_variable", "in_output_variable"):
                 ns = getattr(o, attr, None)
